@@ -192,6 +192,9 @@ def gen_body(c: Ctx, ind, depth, ps, ret):
         k = r.random()
         if k < 0.15:
             out.append(ind + r.choice(COMMENTS))
+        elif k < 0.153:
+            out.append(ind + r.choice(["# 1) first step", "# :-)", "# see (a"]))  # a bracket that is not closed inside the comment
+            c.features.add("unbalanced-comment")
         elif k < 0.25:
             out.append("")
         elif k < 0.35:
